@@ -70,21 +70,22 @@ type Stmt struct {
 
 // Verbs
 const (
-	VCreateDB     = "CREATE DATABASE"
-	VCreateTable  = "CREATE TABLE"
-	VCreateView   = "CREATE VIEW"
-	VCreateMV     = "CREATE MATERIALIZED VIEW"
-	VDropTable    = "DROP TABLE"
-	VDropView     = "DROP VIEW"
-	VRename       = "RENAME TABLE"
-	VExchange     = "EXCHANGE TABLES"
-	VSelectVerAll = "SELECT k, max(ver) GROUP BY k"
-	VAlter        = "ALTER TABLE"
-	VInsert       = "INSERT"
-	VSelectVer    = "SELECT_VER"
-	VSelectSet    = "SELECT_SETTING"
-	VShowTables   = "SHOW TABLES"
-	VSelectCount  = "SELECT_COUNT"
+	VCreateDB      = "CREATE DATABASE"
+	VCreateTable   = "CREATE TABLE"
+	VCreateView    = "CREATE VIEW"
+	VCreateMV      = "CREATE MATERIALIZED VIEW"
+	VDropTable     = "DROP TABLE"
+	VDropView      = "DROP VIEW"
+	VRename        = "RENAME TABLE"
+	VExchange      = "EXCHANGE TABLES"
+	VSelectVerLast = "SELECT ver ORDER BY ver DESC LIMIT 1"
+	VSelectVerAll  = "SELECT k, max(ver) GROUP BY k"
+	VAlter         = "ALTER TABLE"
+	VInsert        = "INSERT"
+	VSelectVer     = "SELECT_VER"
+	VSelectSet     = "SELECT_SETTING"
+	VShowTables    = "SHOW TABLES"
+	VSelectCount   = "SELECT_COUNT"
 )
 
 type parser struct {
@@ -689,6 +690,9 @@ func (p *parser) selectStmt(s *Stmt) {
 	case match("argMax", "(", "value", ",", "inserted_at", ")", "as", "_value", "FROM", "<name>", "WHERE", "fingerprint", "=", "<lit>",
 		"GROUP", "BY", "fingerprint", "HAVING", "argMax", "(", "name", ",", "inserted_at", ")", "!=", "<emptystr>"):
 		s.Verb = VSelectSet
+	case match("ver", "FROM", "<name>", "WHERE", "k", "=", "<lit>", "ORDER", "BY", "ver", "DESC", "LIMIT", "1"):
+		// the latest version row of a key, or no row at all when the key has none (unlike max(), which answers 0)
+		s.Verb = VSelectVerLast
 	case match("count", "(", "1", ")", "FROM", "<name>"):
 		s.Verb = VSelectCount
 	case match("k", ",", "max", "(", "ver", ")", "as", "ver", "FROM", "<name>", "GROUP", "BY", "k"):
